@@ -1,7 +1,10 @@
 package props
 
 import (
+	"fmt"
 	"testing"
+
+	z "github.com/Oudwins/zog"
 
 	"github.com/Oudwins/zog/conf"
 	"pgregory.net/rapid"
@@ -88,6 +91,61 @@ func propC03(cc c03Case) hh.Verdict {
 	return v
 }
 
+// ---- "any value to its %v string": every value of the wild registry into a String schema ----
+
+type c03Any struct {
+	Wild  string `json:"wild"`
+	Place string `json:"place"` // top | field | elem
+}
+
+func propC03Any(c c03Any) hh.Verdict {
+	w := model.WildRegistry[c.Wild]()
+	if w == nil {
+		return hh.Verdict{Skip: "nil-is-absent"}
+	}
+	if s, ok := w.(string); ok && model.IsParseAbsent(s) {
+		return hh.Verdict{Skip: "absent-looking-string"}
+	}
+	want := fmt.Sprintf("%v", w)
+	var got string
+	var n int
+	var pan any
+	func() {
+		defer func() { pan = recover() }()
+		switch c.Place {
+		case "top":
+			n = len(z.String().Parse(w, &got))
+		case "field":
+			var d struct{ F string }
+			n = len(z.Struct(z.Schema{"f": z.String()}).Parse(map[string]any{"f": w}, &d))
+			got = d.F
+		case "elem":
+			var d []string
+			n = len(z.Slice(z.String()).Parse([]any{"x", w}, &d))
+			if len(d) == 2 {
+				got = d[1]
+			}
+		}
+	}()
+	if pan != nil {
+		return hh.Fail("%s/%s: panic %v", c.Wild, c.Place, pan)
+	}
+	if n != 0 {
+		return hh.Fail("%s/%s: a String schema must accept any value (documented: any value -> its %%v string), got %d issues", c.Wild, c.Place, n)
+	}
+	if got != want {
+		return hh.Fail("%s/%s: destination %q, the %%v string is %q", c.Wild, c.Place, trunc(got), trunc(want))
+	}
+	return hh.Verdict{Nontrivial: true, Classes: []string{"place:" + c.Place}}
+}
+
+func trunc(s string) string {
+	if len(s) > 80 {
+		return s[:80] + "..."
+	}
+	return s
+}
+
 func TestC03(t *testing.T) {
 	h := hh.Start(t, "C03",
 		"cases = generated schemas with inputs rendered in every documented equivalent representation (typed, decimal strings, on/off and ParseBool forms, RFC3339 or layout strings, unix seconds, float->int truncation, scalar for slice, typed slices), WithCoercer / Time.Format options and global conf.Coercers overrides; destinations pre-filled with sentinels incl. fields the schema does not name; non-trivial = successful parse whose input contains scalar representations to coerce or a non-default coercer/layout; distinct = FNV-1a of the case JSON",
@@ -102,6 +160,13 @@ func TestC03(t *testing.T) {
 		cfg.MaxDepth, cfg.MaxFields, cfg.MaxElems = 4, 6, 6
 	}
 	hh.Sub(h, "coercion", h.N(30000, 150000), func(rt *rapid.T) c03Case { return c03Case{Case: model.GenCase(rt, cfg)} }, propC03)
+	hh.Enumerate(h, "any-value-to-string", func(yield func(c03Any)) {
+		for _, w := range model.WildNames() {
+			for _, p := range []string{"top", "field", "elem"} {
+				yield(c03Any{Wild: w, Place: p})
+			}
+		}
+	}, propC03Any)
 	gcfg := cfg
 	gcfg.PCoercer = 0.05
 	bases := []string{model.KString, model.KInt, model.KFloat64, model.KBool, model.KTime, model.KSlice}
